@@ -226,29 +226,34 @@ type sweepMutant struct {
 	what    string
 	root    *ref.RCell
 	cell    *boc.Cell
-	flavour int
-	both    bool // run both decoder flavours (otherwise the one selected by the mutant's number)
+	flavour int  // index into sweepFlavours
+	both    bool // run plain, caching and one debug-mode decoder (otherwise the one selected by the mutant's number)
 }
 
-// decode runs both decoder flavours on one parsed mutant; a panic is returned as an error.
+// sweepFlavours are the decoder configurations of the sweep: a mutant that runs "both" gets the plain and the
+// caching decoder and one of the two debug-mode decoders (alternating); the others get one of the four in turn.
+var sweepFlavours = [4]int{decPlain, decHasher, decDebug, decDebugResolver}
+
+// decode runs the decoder flavours on one parsed mutant; a panic is returned as an error.
 func (s *sweepRun) decode(m sweepMutant) error {
-	for i, hasher := range []bool{false, true} {
-		if !m.both && i != m.flavour {
+	for i, d := range sweepFlavours {
+		if m.both {
+			if i >= 2 && i != 2+m.flavour%2 {
+				continue
+			}
+		} else if i != m.flavour {
 			continue
 		}
 		out := reflect.New(s.t)
 		resetAll(m.cell)
+		dec := newDecoder(d, fixedLibTree, nil)
 		perr := core.Protect(func() error {
-			if hasher {
-				tlb.NewDecoder().Unmarshal(m.cell, out.Interface())
-			} else {
-				tlb.Unmarshal(m.cell, out.Interface())
-			}
+			runDecoder(dec, m.cell, out.Interface())
 			return nil
 		})
 		if perr != nil {
 			data := ref.SerializeBOC([]*ref.RCell{m.root}, ref.BocVariant{})
-			return fmt.Errorf("decoding into %s (hasher=%v) panicked on a valid encoding with %s: %v\ninput BOC %x", s.name, hasher, m.what, perr, trunc(data))
+			return fmt.Errorf("decoding into %s (%s) panicked on a valid encoding with %s: %v\ninput BOC %x", s.name, describeDecoder(d), m.what, perr, trunc(data))
 		}
 	}
 	return nil
@@ -299,7 +304,8 @@ func (s *sweepRun) flush() error {
 			return e
 		}
 		u := unfolded(m.root, maxUnfold)
-		if b := 2 * (uint64(16<<20) + uint64(64<<10)*uint64(u)); a > b { // two decoder flavours per input
+		// three decoder flavours per input; a resolved library adds its cells at every library cell
+		if b := 3 * (uint64(16<<20) + uint64(64<<10)*uint64(u)*uint64(1+fixedLibTree.cells())); a > b {
 			data := ref.SerializeBOC([]*ref.RCell{m.root}, ref.BocVariant{})
 			return fmt.Errorf("decoding into %s allocated %d bytes for a tree that unfolds to %d cells (bound %d): valid encoding with %s\ninput BOC %x", s.name, a, u, b, m.what, trunc(data))
 		}
@@ -369,7 +375,7 @@ func (s *sweepRun) add(what string, root, target, repl *ref.RCell, both bool) er
 		cell = cells[0]
 	}
 	s.n++
-	s.batch = append(s.batch, sweepMutant{what: what, root: mroot, cell: cell, both: both, flavour: s.n % 2})
+	s.batch = append(s.batch, sweepMutant{what: what, root: mroot, cell: cell, both: both, flavour: s.n % 4})
 	if len(s.batch) >= 32 {
 		return s.flush()
 	}
